@@ -362,6 +362,9 @@ def run_check(prop, engine_name, tier, level, rule, assumptions, components, sel
         print("HARNESS-ERROR preflight: %s" % pre["error"])
         return 2
     configs = engine.configs(tier, prop)
+    only = os.environ.get("VERIF_ONLY_CONFIG")  # development aid: a comma-separated list of config-name prefixes
+    if only:
+        configs = [(c, n) for c, n in configs if any(c.startswith(o) for o in only.split(","))]
     scale = float(os.environ.get("VERIF_RUNS_SCALE", "1") or 1)
     if scale != 1:
         configs = [(c, max(1, int(n * scale))) for c, n in configs]
